@@ -41,7 +41,9 @@ func (t *Task) Run(runner shell.Runner, stream iostream.IOStream, env []string) 
 		echoStyle.Fprintln(stream.Stdout, cmd)
 		result, err := runner.Run(cmd, stream, t.Name, env)
 		if err != nil {
-			return nil, err
+			// The results of the commands that did run go back with the error,
+			// one of them may have failed and the caller needs to know
+			return results, err
 		}
 		results = append(results, result)
 	}
